@@ -63,6 +63,15 @@ def tasks(tier, seed):
                     else:
                         ts.append({"kind": "responsive", "iv": iv, "to": None, "pat": "none", "payload": payload, "traffic": traffic, "bound": 2,
                                    "name": "pings-only/%s/%s/%s" % (iv, payload, traffic)})
+    # line-level: the ping thread preempting the loop (and vice versa) at every executed library line, for pairs where ping instants and
+    # select deadlines coincide (interval a multiple of the timeout) and where they do not
+    for iv, to in (((2, 1),) if tier == "quick" else ((2, 1), (3, 1), (2.5, 2), (4, 2))):
+        for kind, extra in (("responsive", {"pat": "0"}), ("responsive", {"pat": "to"}), ("silent", {"j": 1})):
+            for k in range(8):
+                d = {"kind": kind, "iv": iv, "to": to, "payload": "k", "traffic": "none", "bound": 2, "line": True, "shard": [k, 8],
+                     "name": "line/%s/%s/%s/%s/%d" % (kind, iv, to, list(extra.values())[0], k)}
+                d.update(extra)
+                ts.append(d)
     return ts
 
 
@@ -134,7 +143,7 @@ class Harness:
             pat = latency_pattern(d["pat"], to) if to is not None else None
             mk = (lambda: tnet.ServerPeer(script=script, on_ping=("pattern", pat))) if pat else (lambda: tnet.ServerPeer(script=script, on_ping=None))
         spec = {"url": "ws://h.example/", "callbacks": ["on_open", "on_message", "on_error", "on_close", "on_ping", "on_pong"], "attempts": [mk],
-                "run_kwargs": run_kwargs, "horizon": 400.0, "max_steps": 30000}
+                "run_kwargs": run_kwargs, "horizon": 400.0, "max_steps": 30000 if not d.get("line") else 200000, "line_level": bool(d.get("line"))}
         run = appsim.AppRun(ch, spec)
         res = run.execute()
         self.steps += run.sched.steps
@@ -222,7 +231,7 @@ def _ratio(iv, to):
 def run_task(desc):
     res = runner.new_result()
     h = Harness(desc)
-    ex = Explorer(h, bound=desc.get("bound", 0), merge=False, max_execs=200_000, max_violations=20)
+    ex = Explorer(h, bound=desc.get("bound", 0), merge=False, max_execs=200_000, max_violations=20, shard=tuple(desc["shard"]) if desc.get("shard") else None)
     ex.explore()
     runner.add_explorer(res, ex)
     res["distinct"] = ex.execs
